@@ -9,17 +9,21 @@ def run(tier):
         cfgs = vfsrun.cfgs([5], [0, 3], range(8)) + vfsrun.cfgs([5], [2], [0, 7]) + vfsrun.cfgs([0], [3], [3, 7]) + vfsrun.cfgs([1, 8], [3], [6]) + \
                vfsrun.cfgs([5], [1], [7]) + vfsrun.cfgs([5], [3], [7], shapes=(1, 2))
         depth = 4
+        deep = (vfsrun.cfgs([5], [0, 3], range(8)) + vfsrun.cfgs([0], [0], [1, 2, 3, 7]), 6)
+        longs, writes = vfsrun.cfgs([1], [0], [4, 6]), (12,)
     else:
         cfgs = vfsrun.cfgs([0, 1, 5, 8], [0, 1, 2, 3], range(8)) + vfsrun.cfgs([5], [3], [0, 3, 7], shapes=(1, 2)) + vfsrun.cfgs([5], [0, 3], range(8), ticks=(1,))
         depth = 5
+        deep = (vfsrun.cfgs([1, 5], [0, 2, 3], range(8)) + vfsrun.cfgs([0], [0, 3], [1, 2, 3, 5, 6, 7]), 7)
+        longs, writes = vfsrun.cfgs([1], [0, 12], [0, 4, 6]), (12, 102)
     return vfsrun.hist_check(
         PROP, tier, cfgs, depth,
         rule="every operation history up to the depth bound (normal form: no D;D, no R;R) over writes of framed size {1,L-1,L,L+1,L+2} (or {1,3,6} without a size limit), "
              "records with 2-byte UTF-8 characters and an embedded LF, day changes of 1-2 days and sink restarts, replayed on the real RotatingFileSink from an empty "
              "directory (plus look-alike foreign files); after EVERY operation the directory is read back (gzip decoded by zlib) and compared with the written byte stream: "
-             "rotated files in order of appearance + active file must continue the stream exactly, files only disappear under retention, file boundaries are record boundaries; "
+             "rotated files in order of appearance + active file must continue the stream exactly, files only disappear under retention, file boundaries are record boundaries, the (date, index) order of rotated names is the rotation order; additionally deeper histories over a reduced alphabet and 12 (102) consecutive compressing rotations; "
              "states = distinct (directory contents, day, records written); distinct_nontrivial = the same count",
-        assumptions=vfsrun.COMMON_ASSUMPTIONS)
+        assumptions=vfsrun.COMMON_ASSUMPTIONS, deep=deep, long_cfgs=longs, long_writes=writes)
 
 
 def replay(path):
